@@ -161,12 +161,19 @@ class SubTissues:
         tags = []
         if len(set(ks)) > 1:
             tags.append("mixed_point_counts")
+        key = "%s|%s|%s|%s" % (self.base, ",".join(d["cells"]), d["k"], d["rs"])
         if d["rs"] is not None:
             with fsutil.quiet():
-                v, e, c, _ = ve.generate_mesh(v, e, c, ne=d["rs"], replace_short_edges=False)
+                res, ex = fsutil.call(ve.generate_mesh, v, e, c, ne=d["rs"], replace_short_edges=False)
+            if ex is not None:
+                return {"key": key, "viol": [{"what": "generate_mesh raised on a sub-tissue", "detail": fsutil.exc_str(ex)}], "tags": tags, "cls": "exc", "obs": None}
+            v, e, c, _ = res
             tags.append("resampled")
         with fsutil.quiet():
-            frame = T.frame_of(v, e, c)
+            frame, ex = fsutil.call(T.frame_of, v, e, c)
+        if ex is not None:
+            return {"key": key, "viol": [{"what": "Frame construction raised on a sub-tissue (its interfaces cannot be decomposed)", "detail": fsutil.exc_str(ex)}],
+                    "tags": tags, "cls": "exc", "obs": None}
         viol, known, facts = check_frame(v, e, c, frame)
         if facts["n_int"]:
             tags.append("has_internal")
